@@ -190,8 +190,9 @@ func (descriptor *BundleDescriptor) UpdateBundleAge() (uint64, error) {
 		return 0, fmt.Errorf("no bundle age block exists")
 	}
 
+	// The Bundle Age Block counts milliseconds, just like the PrimaryBlock's lifetime.
 	age := ageBlock.Value.(*bpv7.BundleAgeBlock)
-	return age.Increment(uint64(time.Since(descriptor.Timestamp)) / 1000), nil
+	return age.Increment(uint64(time.Since(descriptor.Timestamp).Milliseconds())), nil
 }
 
 func (descriptor BundleDescriptor) String() string {
